@@ -90,7 +90,8 @@ def annotate(toks, guarded=True):
             alts = tuple(annotate(a, g) for a in t[2])
             nt = ('grp', t[1], alts) + (('G',) if g else ())
         elif k in LITS:
-            nt = t
+            # a written dot standing syntactically at a segment start carries the NODOTDIR guard
+            nt = t + ('G',) if (g and t[1] == '.') else t
         else:
             nt = t + (('G',) if g else ())
         out.append(nt)
@@ -127,7 +128,7 @@ class Sem:
     """
 
     def __init__(self, s, dot, icase=False, strict=False, nosep='', quirks=frozenset(), fn_star=False,
-                 pathseg=False):
+                 pathseg=False, nodotdir=False):
         self.s = s
         self.n = len(s)
         self.dot = dot
@@ -139,6 +140,7 @@ class Sem:
         self.qb = 'B' in quirks
         self.fn_star = fn_star
         self.pathseg = pathseg
+        self.nodotdir = nodotdir
         self.memo = {}
 
     def hidden_at(self, i, t):
@@ -192,7 +194,7 @@ class Sem:
         if 'NL' in self.quirks and n and s[-1] == '\n' and i < n:
             # defect model: `$` inside the look-ahead also matches before a final newline
             sub = Sem(s[:-1], self.dot, self.icase, self.strict, self.nosep, self.quirks - {'NL'}, self.fn_star,
-                      self.pathseg)
+                      self.pathseg, self.nodotdir)
             for k in sub.tok_ends(('grp', '@', alts) + (('G',) if is_g(t) else ()), i):
                 if sub.n in sub.ends(rest, k):
                     return acc
@@ -212,6 +214,9 @@ class Sem:
         s, n = self.s, self.n
         k = t[0]
         if k in LITS:
+            if self.qb and self.nodotdir and self.pathseg and i > 0 and len(t) == 3 and t[2] == 'G' and s[i:] in ('.', '..'):
+                # defect model B: the NODOTDIR guard of a syntactically first written dot is re-applied in a repeat
+                return ()
             if i < n and lit_eq(t[1], s[i], self.icase):
                 return (i + 1,)
             return ()
@@ -294,9 +299,9 @@ def seg_match3(toks, s, dot, icase=False, nosep=''):
     return True if Sem(s, dot, icase, True, nosep).full(toks) else None
 
 
-def seg_quirk(toks, s, dot, icase=False, nosep='', quirks=frozenset('A'), fn_star=False, pathseg=False):
+def seg_quirk(toks, s, dot, icase=False, nosep='', quirks=frozenset('A'), fn_star=False, pathseg=False, nodotdir=False):
     """Two valued answer of a defect model (lenient reading + the switches)."""
-    return Sem(s, dot, icase, False, nosep, frozenset(quirks), fn_star, pathseg).full(annotate(toks))
+    return Sem(s, dot, icase, False, nosep, frozenset(quirks), fn_star, pathseg, nodotdir).full(annotate(toks))
 
 
 # ---------------------------------------------------------------------------------------------
@@ -349,7 +354,7 @@ def seg3(seg, name, dot, icase, nodotdir, quirks=None, pathseg=True):
         if name in ('.', '..') and nodotdir and seg and seg[0][0] in LITS and seg[0][1] == '.':
             lt = literal_text(seg)
             return lt is not None and lit_str_eq(lt, name, icase)
-        return seg_quirk(seg, name, dot, icase, '/', quirks, False, True)
+        return seg_quirk(seg, name, dot, icase, '/', quirks, False, True, nodotdir)
     if name in ('.', '..'):
         lt = literal_text(seg)
         if nodotdir:
